@@ -274,6 +274,12 @@ impl Display for ReadSizeError {
 	}
 }
 
+/// Verification hook over the private value size calculator.
+#[cfg(feature = "verif")]
+pub(crate) fn verif_next_value_size(input: &[u8]) -> Result<usize, String> {
+	next_value_size(input, DEPTH_LIMIT).map_err(|err| err.to_string())
+}
+
 #[cfg(test)]
 mod tests {
 	use super::*;
